@@ -205,6 +205,12 @@ func UF(name string, outLen int, args ...interface{}) string {
 	panic("zzverif.UF has no native semantics; replay natively against the real function instead")
 }
 
+// AllocsLE reports whether every lazily sized (symbolic-length) allocation made so far is <= bound.
+func AllocsLE(bound int) bool { return true }
+
+// SymAllocs is the number of symbolic-length allocations made so far.
+func SymAllocs() int { return 0 }
+
 func Yield()                 {}
 func SetMapOrderLimit(n int) {}
 func SetPreempt(n int)       {}
